@@ -176,6 +176,7 @@ class LiteDRAMAvalonMM2Native(LiteXModule):
             port.cmd.addr.eq(address),
             port.cmd.we.eq(0),
             port.cmd.valid.eq(~cmd_ready_seen),
+            port.cmd.last.eq(cmd_ready_count == 1),
 
             port.rdata.ready.eq(1),
             avalon.readdata.eq(port.rdata.data),
